@@ -169,7 +169,7 @@ ASSUME['C01'] = DECODER_ASSUMPTIONS
 CHECKS['C02'] = [file_run('c02', 60, 3000, ['C02'])]
 LEVELS['C02'] = 'exploration'
 RULES['C02'] = 'case = one FSR signal of a summarisable type with enough samples for the target summary level; ~80 (start,increment,count) requests per case checked against long-double statistics of the submitted samples with the tolerances of DESIGN 4-C02; distinct = (type,def class,levels on disk,first id class,pattern,gap)'
-ASSUME['C02'] = ['24-bit signals are excluded (the reader cannot summarise them); requests on 64-bit types that need level 0 may return UNSUPPORTED_FILE', 'windows whose widened range contains gap fill or non-finite samples are skipped, as the statement excludes them']
+ASSUME['C02'] = ['requests on 64-bit types that need level 0 may return UNSUPPORTED_FILE (the reader cannot summarise 64-bit samples directly)', 'windows whose widened range contains gap fill or non-finite samples are skipped, as the statement excludes them']
 
 CHECKS['C09'] = [file_run('c09', 300, 20000, ['C09'])]
 LEVELS['C09'] = 'exploration'
@@ -200,7 +200,7 @@ ALL_FILE_MODES = ['c01', 'c02', 'c09', 'c11', 'c12', 'c13', 'c15', 'mix']
 CHECKS['C05'] = [file_run('mix', 150, 6000, ['C05'])] + [file_run(m, 25, 800, ['C05']) for m in ALL_FILE_MODES if m != 'mix']
 LEVELS['C05'] = 'exploration'
 RULES['C05'] = 'every closed file produced by every generator mode (and copies made by jls_copy) is decoded by the independent decoder: rules R1-R7 of DESIGN 3.3 plus content comparison with the submission model; distinct = (producer, signal types/def classes, levels on disk)'
-ASSUME['C05'] = DECODER_ASSUMPTIONS + ['summary payloads of 24-bit signals are not compared (the library has no 24-bit conversion)']
+ASSUME['C05'] = DECODER_ASSUMPTIONS
 
 CHECKS['C14'] = [file_run(m, 30 if m != 'mix' else 120, 1200, ['C14']) for m in ALL_FILE_MODES]
 LEVELS['C14'] = 'exploration'
